@@ -67,14 +67,14 @@ Proof. exact covered_parts. Qed.
 Print Assumptions C06_covered_parts.
 
 (** JWT: accepted iff three segments, the header's alg is the configured HS algorithm, the claims
-    are currently valid (exp / iat / nbf) and the signature segment is exactly the MAC text of
+    are currently valid and the signature segment is exactly the MAC text of
     header.claims under the configured secret *)
 Theorem C06_jwt_sound_complete : forall o c jnow tok,
   jwt_token_ok ideal o c jnow tok = true <->
   exists h cl s e i n,
     split_on "."%char tok = [h; cl; s] /\
     o_jhdr o h = Some (j_alg c) /\ is_hs (j_alg c) = true /\
-    o_jclaims o cl = Some (e, i, n) /\ time_valid jnow e i n /\
+    o_jclaims o cl = Some (e, i, n) /\ time_valid jnow (claim_value e) (claim_value i) (claim_value n) /\
     s = o_jmac o (j_alg c) (j_secret c) (h ++ "." ++ cl).
 Proof. exact jwt_token_ok_iff. Qed.
 Print Assumptions C06_jwt_sound_complete.
@@ -141,6 +141,19 @@ Theorem C06_reject_is_invalid_4xx : forall q o cfg r now jnow,
 Proof. exact reject_is_invalid_4xx. Qed.
 Print Assumptions C06_reject_is_invalid_4xx.
 
+(** Basic users kept in etcd: in every history of delivered user sets and requests, a request is
+    judged against the user set in force, which after an update is exactly the delivered set - the
+    empty one included, and then nobody is admitted *)
+Theorem C06_basic_latest_users : forall q o alive init pre r post,
+  etcd_run q o alive init (pre ++ EReq r :: post)%list =
+  (etcd_run q o alive init pre ++
+   handle q o (basic_cfg (current_users alive init pre)) r 0 0 ::
+   etcd_run q o alive (current_users alive init pre) post)%list /\
+  (forall l, current_users true init (pre ++ [EUpdate l])%list = users_of l) /\
+  (forall u, basic_ok q o [] u = false).
+Proof. exact basic_latest_users. Qed.
+Print Assumptions C06_basic_latest_users.
+
 (** ** refutations: with one defect flag on, the property fails on a concrete request
        (injective oracle [toy], see proofs/ValidatorProofsWit.v) *)
 Theorem C06_refuted_sig_verifies_drained_body :
@@ -175,3 +188,10 @@ Example C06_nonvacuous :
   jwt_token_ok ideal toy wjwt 0 wtoken = true /\
   basic_ok ideal toy wusers (wbasic "carol:pässwörd") = true.
 Proof. exact nonvacuous. Qed.
+
+(** a fractional / exponent NumericDate counts with its whole second: 1600000000.5 and 1.6e9 *)
+Example C06_claim_value_examples :
+  claim_value (JNum 16000000005 (-1)) = Some 1600000000%Z /\ claim_value (JNum 16 8) = Some 1600000000%Z /\
+  exp_ok 1700000000 (claim_value (JNum 16000000005 (-1))) = false /\
+  notbefore_ok 1700000000 (claim_value (JNum 18 8)) = false /\ claim_value JAbsent = None.
+Proof. vm_compute. repeat split; reflexivity. Qed.
